@@ -238,6 +238,29 @@ fn explore_scenario(base_id: usize, sc: &Scn, bounds: &[usize], cap: usize) -> E
     ex
 }
 
+/// replay one recorded schedule of one scenario and print its trace
+pub fn replay(desc: &str, detail: &str) -> i32 {
+    let scs = scenarios(true);
+    let Some(sc) = scs.iter().find(|s| s.desc == desc) else {
+        println!("no such scenario: {}", desc);
+        return 3;
+    };
+    let sched: Vec<usize> = detail
+        .split("in schedule [")
+        .nth(1)
+        .and_then(|x| x.split(']').next())
+        .map(|x| x.split(',').filter_map(|n| n.trim().parse().ok()).collect())
+        .unwrap_or_default();
+    println!("scenario: {}\nargv: {:?}\nschedule (choice index per decision): {:?}\nsequential reference: exit status {}", sc.desc, sc.argv, sched, sc.want_code);
+    for round in 0..2 {
+        match run_once(900000 + round, sc, &sched) {
+            Ok(r) => println!("run {}: exit status {}\n{}", round + 1, r.code, r.raw_trace),
+            Err(e) => println!("run {}: machinery error: {}", round + 1, e),
+        }
+    }
+    0
+}
+
 pub fn c19(thorough: bool, stats: &mut Stats) -> Vec<Failure> {
     let scs = scenarios(thorough);
     let bounds: Vec<usize> = if thorough { vec![0, 1, 2, 3, 99] } else { vec![0, 1, 2] };
